@@ -114,6 +114,9 @@ fn ext_answer(func: &str, s: &str) -> Result<(String, usize), &'static str> {
 pub fn check_default(func: &str, arg: &str) -> bool {
     if func.ends_with("chk_nob") {
         !arg.contains('b')
+    } else if func.ends_with("chk_nob2") {
+        // refuses values in which the string "bb" occurs (two adjacent b)
+        !arg.contains("bb")
     } else if func.ends_with("chk_never") {
         false
     } else {
@@ -214,6 +217,10 @@ chk!(chk1, chkc1, chkx1);
 /// refuses every value whose canonical form contains the letter b
 pub fn chk_nob<T: Debug>(v: &T) -> bool {
     check_answer("hrt::user::chk_nob", canon_of(v))
+}
+/// refuses every value whose canonical form contains "bb"
+pub fn chk_nob2<T: Debug>(v: &T) -> bool {
+    check_answer("hrt::user::chk_nob2", canon_of(v))
 }
 /// refuses everything (used where a check must never be consulted)
 pub fn chk_never<T: Debug>(v: &T) -> bool {
